@@ -680,11 +680,11 @@ fn generate_xmatch(seed: u64) -> Scenario {
     let n_threads = rng.range(2, 4) as usize;
     let d = rng.range(2, 27) as u8;
     let cs = cell_size(d);
-    let radii = [cs * rng.uniform(0.4, 2.5), if rng.chance(1, 3) { radius_for_root_depth(&mut rng, d.saturating_sub(1)) } else { cs * rng.uniform(0.4, 2.5) }];
-    let dds = [rng.range(1, 2) as u8, rng.range(1, 2) as u8 + if rng.chance(1, 2) { 1 } else { 0 }];
+    let radii = [cs * rng.uniform(0.4, 1.5), if rng.chance(1, 3) { radius_for_root_depth(&mut rng, d.saturating_sub(1)) } else { cs * rng.uniform(0.4, 1.5) }];
+    let dds = [1u8, if rng.chance(1, 2) { 2 } else { 1 }];
     let mut threads = Vec::with_capacity(n_threads);
     for ti in 0..n_threads {
-        let n_ops = rng.range(2, 4) as usize;
+        let n_ops = rng.range(2, 3) as usize;
         let mut ops = Vec::with_capacity(n_ops);
         for _ in 0..n_ops {
             let (lon, lat) = gen_pos(&mut rng);
